@@ -142,3 +142,12 @@ class Gen(object):
         lines = self.block(self.depth, 0)
         lines.append('print(%s)' % ', '.join(IDENTS))
         return '\n'.join(lines) + '\n'
+
+
+def valid(src):
+    """the compiler accepts it (ast.parse alone lets duplicate parameters, misplaced walruses, ... through)"""
+    try:
+        compile(src, '<gen>', 'exec', dont_inherit=True)
+        return True
+    except (SyntaxError, ValueError, RecursionError):
+        return False
